@@ -269,7 +269,6 @@ class Ctx:
             self.hung = True
             return None
         if rc != 0:
-            n = len(self.viol)
             self.app_failed(rc, text, [exe] + list(args))
             if self.verify_failed:
                 return text
@@ -369,12 +368,6 @@ def tile_graph(ctx, directed, weighted=False, wmode="small", cap_total=(1 << 31)
         g = g2
     g.kind = kind + "-hub"
     return g
-
-
-def void_copy(g):
-    o = R.Graph(g.n, False, g.kind)
-    o.adj = [[(v, None) for v, _ in a] for a in g.adj]
-    return o
 
 
 def sources_for(ctx, g, dist_fn):
@@ -1454,6 +1447,10 @@ SPEC = dict(
         "variant's stopping rule (see pr_tolerances); runs that report 'failed to converge' are not compared",
         "matching -pfpAlgo reads edge capacities from the file: its inputs carry 32-bit edge data 1",
         "distributed connected components: the partition into components is compared, not the label values",
-        "a timeout (300 s per process, retried once) is inconclusive, never a violation",
+        "a wall-clock timeout (300 s per process, retried once with 600 s) is inconclusive, never a violation; non-termination "
+        "is reported (key ...:hang) only by the livelock rule: a single-threaded (-t 1) run of a shared-memory application "
+        "consumed 60 + (nodes+edges)/50 seconds of CPU time (from /proc, not wall-clock) without terminating; a slow "
+        "multi-threaded run is never convicted itself, it is probed with -t 1",
+        "every application process is limited to 8 GB of address space (they normally map ~1.5 GB)",
     ],
 )
